@@ -173,6 +173,21 @@ def install():
     crypto.Prf.prf = prf
 
 
+LOG_SITES = set()      # (file, line) of every INFO+ logging call of the implementation that was executed in this process
+
+
+def _call_site():
+    """(file name, line) of the statement of the implementation that logged: the first frame outside logging and outside the log_* helpers."""
+    f = sys._getframe(2)
+    while f is not None:
+        co = f.f_code
+        name = os.path.basename(co.co_filename)
+        if 'logging' not in co.co_filename and not co.co_name.startswith('log_') and co.co_name not in ('emit', '_call_site', 'handle', 'callHandlers'):
+            return name, f.f_lineno
+        f = f.f_back
+    return '?', 0
+
+
 class _LogCapture(logging.Handler):
     def __init__(self, world):
         super().__init__(level=logging.DEBUG)
@@ -188,6 +203,7 @@ class _LogCapture(logging.Handler):
             if record.exc_info:
                 text += '\n' + ''.join(_traceback.format_exception(*record.exc_info))
             w.log_info.append((record.levelno, text, w.cur, w.step_no))
+            LOG_SITES.add(_call_site())
         elif w.keep_debug:
             w.log_debug.append(record.getMessage())
         else:
